@@ -65,6 +65,26 @@ func authMutants(m storage.Message, w *world.World, r *sched.Rng) []mutant {
 			add("payload-flip:"+cl, c)
 		}
 	}
+	// one character of a base64 body replaced by another valid one (the JSON stays well formed): near the end
+	// of the payload and, in long payloads, far beyond the first 64 KiB
+	for _, pos := range []int{len(d) - 40, 70000, len(d) * 3 / 4} {
+		if pos <= 0 || pos >= len(d) {
+			continue
+		}
+		for i := pos; i < len(d) && i < pos+200; i++ {
+			b := d[i]
+			if (b >= 'a' && b <= 'z') || (b >= 'A' && b <= 'Z') {
+				c := cp()
+				if b == 'Q' {
+					c.Data[i] = 'R'
+				} else {
+					c.Data[i] = 'Q'
+				}
+				add(fmt.Sprintf("payload-other-base64-char:at-%d%%", 100*i/len(d)), c)
+				break
+			}
+		}
+	}
 	{
 		c := cp()
 		c.Data = append(c.Data, ' ')
@@ -158,6 +178,10 @@ func (rw *refWorld) Close() {
 	}
 }
 
+// refWorldLargeDocument (set by C09): the honest+signing reference world signs a third batch with a
+// 100 KiB document.
+var refWorldLargeDocument bool
+
 func buildRefWorld(kind string, seed uint64, n, t int) (*refWorld, error) {
 	w, err := world.NewWorld(world.Options{N: n, T: t, Seed: seed})
 	if err != nil {
@@ -195,8 +219,19 @@ func buildRefWorld(kind string, seed uint64, n, t int) (*refWorld, error) {
 			w.Close()
 			return nil, fmt.Errorf("reference run %s: %v", kind, ce.States())
 		}
-		for b := 0; b < 2; b++ {
+		for b := 0; b < 3; b++ {
 			spec := BatchSpec{Proposer: b % n, Data: map[string][]byte{fmt.Sprintf("file-%d", b): []byte(fmt.Sprintf("content %d", b))}}
+			if b == 2 && !refWorldLargeDocument {
+				break
+			}
+			if b == 2 {
+				// a large document: proposal, answers and broadcasts of this batch are far longer than 64 KiB
+				big := make([]byte, 100<<10)
+				for i := range big {
+					big[i] = byte(i*131 + i>>8)
+				}
+				spec.Data = map[string][]byte{"large-document": big}
+			}
 			if t < n {
 				spec.Signers = []int{0, 1}
 				if t > 2 {
@@ -298,6 +333,7 @@ func protectedDiff(before, after map[string][]byte, freshRound string) []string 
 }
 
 func checkC09(c *Ctx) {
+	refWorldLargeDocument = true
 	c.Rule = "reference ceremonies (honest key generation + two signing batches; a key generation cancelled by an error report; a round reinitialised from a dump followed by signing) are run one message per poll with a snapshot after every step, so that every (genuine message, consuming node) pair is met in the exact state in which the node consumes it. Each pair is attacked with ~30 forgeries (payload bit flips per byte class, signature flips/truncation/empty/zero, sender renamed to each other participant or a stranger, re-signed with each other participant's key or a fresh key); every forgery is also presented wrapped inside an (unauthenticated) reinit_dkg message for a fresh round id. Oracle: ProcessMessage returns an error and the node's durable state (offset excluded) is byte-identical; for the wrapped family: every existing round, existing operation and signature store is unchanged. Plus rounds in which the key registered for a participant is unusable (10/16/31/33/64-byte key in the opening proposal, key left out of a reinit message): every message naming that participant, under any signature, must be refused without a trace. Stranger's opening proposals under identifiers that fold onto the existing round's must leave it unchanged. A stranger's own round (the participants' names registered with her key): signature broadcasts posted there that name a real round / participant must leave the real round untouched. distinct = distinct (world, event type, consuming-state name, forgery kind)"
 	c.Assumptions = []string{"MemState substituted for LevelDB", "the opening proposal and the reinitialisation message themselves are exempt by the property"}
 	kinds := []struct {
